@@ -31,11 +31,6 @@ Definition expected_delegations : list (string * deleg) :=
 Lemma tie_delegations : gen_delegations = expected_delegations.
 Proof. reflexivity. Qed.
 
-Fixpoint lookup (k : string) (l : list (string * deleg)) : option deleg :=
-  match l with
-  | [] => None
-  | (k', d) :: r => if String.eqb k k' then Some d else lookup k r
-  end.
 
 Lemma tie_deleg_of k : lookup k gen_delegations = lookup k expected_delegations.
 Proof. now rewrite tie_delegations. Qed.
